@@ -28,6 +28,8 @@ def _doc(i):
     return " ".join(d.split())[:1500]
 
 AUTO = {
+ "C01": ("TLA+ spec WireRR.tla (hand-written RFC wire layout table for all 80 registry types, EDNS0 options, SVCB keys, header/RCODE split; encoders, length arithmetic, reference decoder): TLC model checking + TLC-generated boundary vectors with expected octets replayed into Pack/Unpack/PackRR/UnpackRR + trace validation of random messages (EncMsg(msg) = bytes)", "4/C01"),
+ "C08": ("TLA+ specs WireRR.tla (LenMsg, true length) and CompressLen.tla (PackImpl / LenImpl models of packDomainName and the length predictor): TLC model checking LenImpl >= PackImpl with the pointer limit lowered + vectors and recorded {msg, compress, len, packlen} events judged against the models; PackBuffer in-place clause observed", "4/C08"),
  "C11": ("TLA+ spec Tsig.tla (RFC 8945 digest input, signed-message layout, MAC-chain session machine; HMAC uninterpreted): TLC model checking of envelope chains with faults + TLC-generated vectors and chain behaviours replayed into TsigGenerate / VerifTsigVerifyAt / Transfer.ReadMsg / Conn + trace validation; the harness applies crypto/hmac to the SPEC's octets", "4/C11"),
  "C12": ("TLA+ specs Stream.tla (framing under any segmentation, reply-ID machine) and Exchange.tla (clients, server, buffer pool): TLC model checking with must-fail variants + MC behaviours scaled to real sizes replayed through Conn/Server over scripted in-memory conns + trace validation of concurrent exchanges (pool hook events)", "4/C12"),
  "C14": ("TLA+ spec Admission.tla (accept policy table, outcome trichotomy, reply shapes, mux routing incl. DS): TLC model checking over all 8192 headers and pattern sets + TLC-generated packets/routing vectors replayed into a real Server (PacketConn, TCP, UDP loopback) and ServeMux + trace validation of mutated packets and concurrent mux operations (also -race)", "4/C14"),
